@@ -17,6 +17,7 @@ import (
 	"verif/internal/erun"
 	"verif/internal/hx"
 	"verif/internal/lang"
+	"verif/internal/pgen"
 	"verif/internal/progcheck"
 )
 
@@ -161,316 +162,6 @@ func isFailing(s *lang.S) bool {
 
 func TestRegress(t *testing.T) { hx.Regress(t, runCase) }
 
-// ---------------------------------------------------------------------------
-// generator
-
-type gen struct {
-	rt      *rapid.T
-	mark    int
-	nvar    int
-	nfunc   int
-	funcs   []string // defined function names with their arity
-	arity   map[string]int
-	budget  int
-}
-
-func (g *gen) pick(n int, l string) int { return rapid.IntRange(0, n-1).Draw(g.rt, l) }
-
-func (g *gen) marker() *lang.S {
-	g.mark++
-	return lang.Mark(fmt.Sprintf("m%d", g.mark))
-}
-
-type ctx struct {
-	depth  int
-	inLoop bool
-	inFunc bool
-	vars   []string // numeric variables readable and writable here
-	inFin  bool
-}
-
-var errTypes = []string{"A", "B", "C"}
-
-func (g *gen) numExpr(c ctx) *lang.E {
-	if len(c.vars) > 0 && g.pick(2, "nv") == 0 {
-		v := lang.Var(c.vars[g.pick(len(c.vars), "nvi")])
-		if g.pick(3, "nop") == 0 {
-			return lang.Op("plus", v, lang.Num(fmt.Sprint(g.pick(4, "nl"))))
-		}
-		return v
-	}
-	return lang.Num(fmt.Sprint(g.pick(6, "nl2")))
-}
-
-func (g *gen) cond(c ctx) *lang.E {
-	switch g.pick(6, "cond") {
-	case 0:
-		return lang.Bool(true)
-	case 1:
-		return lang.Bool(false)
-	default:
-		op := []string{"<", "<=", ">", ">=", "==", "!="}[g.pick(6, "cop")]
-		return lang.Op(op, g.numExpr(c), g.numExpr(c))
-	}
-}
-
-// exit generates a non-fallthrough statement appropriate for the context (or nil).
-func (g *gen) exit(c ctx) *lang.S {
-	var opts []string
-	if c.inLoop {
-		opts = append(opts, "break", "continue")
-	}
-	if c.inFunc {
-		opts = append(opts, "return", "returnv")
-	}
-	opts = append(opts, "raise", "raise", "rterr")
-	switch opts[g.pick(len(opts), "exit")] {
-	case "break":
-		return lang.Break()
-	case "continue":
-		return lang.Continue()
-	case "return":
-		return lang.Return(nil)
-	case "returnv":
-		return lang.Return(g.numExpr(c))
-	case "raise":
-		args := []*lang.E{lang.Str(errTypes[g.pick(3, "et")])}
-		if n := g.pick(3, "rargs"); n >= 1 {
-			args = append(args, lang.Str([]string{"d1", "some detail", ""}[g.pick(3, "rd")]))
-			if n == 2 {
-				args = append(args, []*lang.E{lang.List(lang.Num("1"), lang.Str("x")), lang.Num("7"), lang.Str("data"), lang.Null()}[g.pick(4, "rdata")])
-			}
-		}
-		return lang.ExprS(lang.Call(lang.Var("raise"), args...))
-	default:
-		// a runtime error of known type
-		return lang.ExprS(lang.Op("plus", lang.Num("1"), lang.Str("a")))
-	}
-}
-
-func (g *gen) block(c ctx, maxStmts int) []*lang.S {
-	n := 1 + g.pick(maxStmts, "nstmts")
-	var out []*lang.S
-	for i := 0; i < n && g.budget > 0; i++ {
-		out = append(out, g.stmt(c)...)
-	}
-	if len(out) == 0 {
-		out = append(out, g.marker())
-	}
-	return out
-}
-
-func (g *gen) stmt(c ctx) []*lang.S {
-	g.budget--
-	k := g.pick(20, "stmt")
-	if c.depth >= 4 && k >= 6 && k <= 14 {
-		k = 0
-	}
-	if c.inFin && (k >= 15 || (k >= 6 && k <= 14)) {
-		k = k % 3 // finally bodies: markers and assignments only
-	}
-	inner := c
-	inner.depth++
-	switch {
-	case k <= 2:
-		return []*lang.S{g.marker()}
-	case k == 3:
-		if len(c.vars) == 0 {
-			return []*lang.S{g.marker()}
-		}
-		v := c.vars[g.pick(len(c.vars), "av")]
-		return []*lang.S{lang.Assign(lang.Var(v), lang.Op("plus", lang.Var(v), lang.Num("1")))}
-	case k <= 5:
-		return []*lang.S{lang.Rec(g.numExpr(c))}
-	case k <= 7: // if
-		s := &lang.S{K: "if"}
-		nb := 1 + g.pick(3, "nbr")
-		for i := 0; i < nb; i++ {
-			s.Br = append(s.Br, &lang.Branch{Cond: g.cond(c), Body: g.block(inner, 3)})
-		}
-		if g.pick(2, "else") == 0 {
-			s.Br = append(s.Br, &lang.Branch{Body: g.block(inner, 3)})
-		}
-		return []*lang.S{g.marker(), s, g.marker()}
-	case k <= 10: // loops
-		li := inner
-		li.inLoop = true
-		g.nvar++
-		switch g.pick(5, "loop") {
-		case 0: // condition loop with a guard counter incremented at the head
-			w := fmt.Sprintf("w%d", g.nvar)
-			init := lang.Assign(lang.Var(w), lang.Num("0"))
-			if c.inFunc {
-				init = lang.LetS(w, lang.Num("0"))
-			}
-			li.vars = append(append([]string{}, c.vars...), w)
-			body := append([]*lang.S{lang.Assign(lang.Var(w), lang.Op("plus", lang.Var(w), lang.Num("1")))}, g.block(li, 3)...)
-			return []*lang.S{init, lang.While(lang.Op("<", lang.Var(w), lang.Num(fmt.Sprint(1+g.pick(3, "wn")))), body...), g.marker()}
-		case 1, 2: // range
-			v := fmt.Sprintf("i%d", g.nvar)
-			li.vars = append(append([]string{}, c.vars...), v)
-			var args []*lang.E
-			from, to := g.pick(5, "from"), g.pick(5, "to")
-			switch g.pick(4, "rform") {
-			case 0:
-				args = []*lang.E{lang.Num(fmt.Sprint(to % 4))}
-			case 1:
-				if from > to {
-					from, to = to, from
-				}
-				args = []*lang.E{lang.Num(fmt.Sprint(from)), lang.Num(fmt.Sprint(to))}
-			default:
-				step := 1 + g.pick(2, "step")
-				if from > to {
-					args = []*lang.E{lang.Num(fmt.Sprint(from)), lang.Num(fmt.Sprint(to)), lang.Op("minus", lang.Num(fmt.Sprint(step)))}
-				} else {
-					args = []*lang.E{lang.Num(fmt.Sprint(from)), lang.Num(fmt.Sprint(to)), lang.Num(fmt.Sprint(step))}
-				}
-			}
-			body := append([]*lang.S{lang.Rec(lang.Var(v))}, g.block(li, 3)...)
-			return []*lang.S{{K: "for", Vars: []string{v}, E: lang.Call(lang.Var("range"), args...), Body: body}, g.marker()}
-		case 3: // list
-			v := fmt.Sprintf("i%d", g.nvar)
-			li.vars = append(append([]string{}, c.vars...), v)
-			l := lang.List()
-			for i, n := 0, g.pick(4, "ll"); i < n; i++ {
-				l.A = append(l.A, lang.Num(fmt.Sprint(g.pick(9, "lv"))))
-			}
-			body := append([]*lang.S{lang.Rec(lang.Var(v))}, g.block(li, 3)...)
-			return []*lang.S{{K: "for", Vars: []string{v}, E: l, Body: body}, g.marker()}
-		default: // map as [key, value]
-			k, v := fmt.Sprintf("k%d", g.nvar), fmt.Sprintf("v%d", g.nvar)
-			li.vars = append(append([]string{}, c.vars...), v)
-			m := lang.MapLit()
-			keys := [][]string{{"b", "a", "c"}, {"zz", "z", "y"}, {"B", "a", "A"}, {"k"}, {}}[g.pick(5, "mk")]
-			for i, key := range keys {
-				m.A = append(m.A, lang.Str(key), lang.Num(fmt.Sprint(i+1)))
-			}
-			body := append([]*lang.S{lang.Rec(lang.Var(k)), lang.Rec(lang.Var(v))}, g.block(li, 2)...)
-			// a map literal cannot stand in a loop header (the brace opens the body): bind it first, as in ecal.md
-			mv := fmt.Sprintf("mp%d", g.nvar)
-			bind := lang.Assign(lang.Var(mv), m)
-			if c.inFunc {
-				bind = lang.LetS(mv, m)
-			}
-			return []*lang.S{bind, {K: "for", Vars: []string{k, v}, E: lang.Var(mv), Body: body}, g.marker()}
-		}
-	case k <= 12: // try
-		s := &lang.S{K: "try"}
-		s.Body = g.block(inner, 3)
-		if g.pick(3, "tryexit") != 0 {
-			s.Body = append(s.Body, g.exit(inner))
-		}
-		nex := g.pick(4, "nex")
-		for i := 0; i < nex; i++ {
-			x := &lang.Except{}
-			switch g.pick(6, "xshape") {
-			case 0: // bare
-			case 1:
-				x.As = "e"
-			case 2:
-				x.Types = []string{g.errType()}
-			case 3:
-				x.Types = []string{g.errType()}
-				x.As = "e"
-			case 4:
-				x.Types = []string{g.errType(), g.errType()}
-			default:
-				x.Types = []string{g.errType(), g.errType()}
-				x.As = "e"
-			}
-			x.Body = []*lang.S{g.marker()}
-			if x.As != "" {
-				x.Body = append(x.Body, lang.Rec(lang.Dot(lang.Var("e"), "type")))
-				if g.pick(3, "recdetail") == 0 {
-					x.Body = append(x.Body, &lang.S{K: "try", Body: []*lang.S{lang.Rec(lang.Dot(lang.Var("e"), "detail")), lang.Rec(lang.Dot(lang.Var("e"), "data"))},
-						Ex: []*lang.Except{{Body: []*lang.S{lang.Mark("nodetail")}}}})
-				}
-			}
-			x.Body = append(x.Body, g.block(inner, 2)...)
-			if g.pick(4, "xexit") == 0 {
-				x.Body = append(x.Body, g.exit(inner))
-			}
-			s.Ex = append(s.Ex, x)
-		}
-		if g.pick(3, "oth") == 0 {
-			s.Oth = &lang.Block{Body: g.block(inner, 2)}
-			if g.pick(5, "othexit") == 0 {
-				s.Oth.Body = append(s.Oth.Body, g.exit(inner))
-			}
-		}
-		if g.pick(2, "fin") == 0 {
-			fi := inner
-			fi.inFin = true
-			s.Fin = &lang.Block{Body: g.block(fi, 2)}
-		}
-		return []*lang.S{g.marker(), s, g.marker()}
-	case k <= 14: // function definition + call (definitions only at the top level of the program / not inside loops to keep names unique)
-		if c.inFunc || c.inLoop || c.depth > 0 {
-			return g.callStmt(c)
-		}
-		g.nfunc++
-		name := fmt.Sprintf("f%d", g.nfunc)
-		np := g.pick(3, "np")
-		f := &lang.Func{Name: name}
-		fc := ctx{depth: c.depth + 1, inFunc: true}
-		for i := 0; i < np; i++ {
-			p := fmt.Sprintf("p%d", i+1)
-			f.Params = append(f.Params, p)
-			fc.vars = append(fc.vars, p)
-		}
-		f.Body = g.block(fc, 4)
-		if g.pick(2, "fret") == 0 {
-			f.Body = append(f.Body, lang.Return(g.numExpr(fc)))
-		} else {
-			f.Body = append(f.Body, lang.Return(lang.Num("0")))
-		}
-		g.funcs = append(g.funcs, name)
-		g.arity[name] = np
-		out := []*lang.S{{K: "func", Fn: f}}
-		return append(out, g.callStmt(c)...)
-	case k <= 16:
-		if e := g.exit(c); e != nil && g.pick(3, "doexit") == 0 {
-			return []*lang.S{e}
-		}
-		return []*lang.S{g.marker()}
-	default:
-		return g.callStmt(c)
-	}
-}
-
-func (g *gen) errType() string {
-	if g.pick(5, "rtt") == 0 {
-		return lang.TNotANumber
-	}
-	return errTypes[g.pick(3, "et2")]
-}
-
-func (g *gen) callStmt(c ctx) []*lang.S {
-	if len(g.funcs) == 0 || c.inFunc {
-		return []*lang.S{g.marker()}
-	}
-	name := g.funcs[g.pick(len(g.funcs), "fn")]
-	var args []*lang.E
-	for i := 0; i < g.arity[name]; i++ {
-		args = append(args, g.numExpr(c))
-	}
-	return []*lang.S{lang.Rec(lang.Call(lang.Var(name), args...)), g.marker()}
-}
-
-func genProg(rt *rapid.T) *lang.Prog {
-	g := &gen{rt: rt, arity: map[string]int{}, budget: 40}
-	p := &lang.Prog{}
-	c := ctx{vars: []string{"a", "b"}}
-	p.Body = append(p.Body, lang.Assign(lang.Var("a"), lang.Num("0")), lang.Assign(lang.Var("b"), lang.Num("3")))
-	n := 1 + g.pick(5, "top")
-	for i := 0; i < n && g.budget > 0; i++ {
-		p.Body = append(p.Body, g.stmt(c)...)
-	}
-	p.Body = append(p.Body, lang.Rec(lang.Var("a")), lang.Rec(lang.Var("b")))
-	return p
-}
-
 // exhaustive: exit kind x handler shape x otherwise x finally x enclosing construct
 func tryMatrix(yield func(Case) bool) {
 	exits := []string{"fall", "break", "continue", "return", "raiseA", "raiseZ", "rterr"}
@@ -568,7 +259,7 @@ func TestExhaustive(t *testing.T) {
 }
 
 func TestProp(t *testing.T) {
-	hx.Check(t, func(rt *rapid.T) Case { return Case{Prog: genProg(rt)} }, runCase)
+	hx.Check(t, func(rt *rapid.T) Case { return Case{Prog: pgen.ControlFlow(rt)} }, runCase)
 }
 
 var _ = strings.Contains
